@@ -373,6 +373,11 @@ next:
 			err = err2
 		}
 		return n, err, clean
+	case typeAttribute: // attributes are not part of the reply: skip them and stream the value that follows
+		if _, err = readMap(i); err != nil {
+			return 0, err, false
+		}
+		goto next
 	default:
 		_ = i.UnreadByte()
 		m, err := readNextMessage(i)
